@@ -195,6 +195,11 @@ def _container(allowed):
         from collections import OrderedDict
         from chempy import Substance
         return OrderedDict((k, Substance(k)) for k in keys)
+    if form == "alias":
+        # the substances carry names of their own; the keys are what texts are written with
+        from collections import OrderedDict
+        from chempy import Substance
+        return OrderedDict((k, Substance("name_of<%s>" % k)) for k in keys)
     return keys
 
 
@@ -243,12 +248,36 @@ def read(doc, klass, system, allowed, cfg, nochecks, use_args=True):
     return rs, list(rs.rxns)
 
 
+EDIT_LOW, EDIT_HIGH = "!M", "~M"      # ReactionText!EditLow / EditHigh (TLC checks them: clause copy-edit-keys)
+
+
+def _edit_then_copy(doc, klass, system, allowed, cfg, nochecks, obs):
+    """History: read the text afresh, add a species in place to every reaction (one key sorting
+    before, one after all others), copy: equal? same printed text? what does the copy hold?"""
+    try:
+        obj, rxns = read(doc, klass, system, allowed, cfg, nochecks)
+        eq, same, lines = True, True, []
+        for r in rxns:
+            r.reac[EDIT_LOW] = r.reac.get(EDIT_LOW, 0) + 1
+            r.prod[EDIT_HIGH] = r.prod.get(EDIT_HIGH, 0) + 2
+            c = r.copy()
+            eq = eq and bool(c == r) and bool(r == c) and not bool(c != r)
+            same = same and (c.string(with_param=True, with_name=True) == r.string(with_param=True, with_name=True))
+            lines.append(project_rxn(c))
+        obs["edit_copy_eq"], obs["edit_str_eq"] = eq, same
+        obs["edit_lines"] = lines if all(x is not None for x in lines) else []
+    except Exception as e:
+        obs["edit_copy_eq"] = False
+        obs["edit_exc"] = "%s: %s" % (type(e).__name__, str(e)[:120])
+
+
 def observe(doc, klass, system, allowed, cfg, nochecks, want_rt, override=None):
     """Everything C12 looks at for one text, projected.  nochecks: switch the constructor's
     documented default checks (all_integral, any_effect, consistent_units, duplicate) off."""
     obs = {"doc": doc, "klass": klass, "raised": False, "exc": "", "lines": [], "copy_eq": True,
            "copy_lines": [], "rts": [], "retried": False, "substances": [], "copy_indep": True,
-           "after_lines": [], "copy_over_lines": []}
+           "after_lines": [], "copy_over_lines": [], "edit": {"low": EDIT_LOW, "high": EDIT_HIGH},
+           "edit_lines": [], "edit_copy_eq": True, "edit_str_eq": True}
     try:
         obj, rxns = read(doc, klass, system, allowed, cfg, nochecks)
     except Exception as e:
@@ -296,6 +325,7 @@ def observe(doc, klass, system, allowed, cfg, nochecks, want_rt, override=None):
     except Exception as e:
         obs["copy_eq"] = False
         obs["copy_exc"] = "%s: %s" % (type(e).__name__, str(e)[:120])
+    _edit_then_copy(doc, klass, system, allowed, cfg, nochecks, obs)
     if not want_rt:
         return obs
     # print under every requested option (with_param, with_name), then read the printed text
@@ -540,7 +570,7 @@ class Gen(object):
             allowed = sorted(set(self._key() for _ in range(r.randint(2, 6))))
             if len(allowed) < 2:
                 allowed = sorted(set(allowed + ["A", "B"]))
-            evs.append({"k": "allowed", "keys": allowed, "form": r.choice(["list", "list", "tuple", "set", "dict", "str"])})
+            evs.append({"k": "allowed", "keys": allowed, "form": r.choice(["list", "list", "tuple", "set", "dict", "str", "alias"])})
         cfg = dict(DEFAULT_CFG)
         if r.random() < 0.35 or fault == "stale":
             cfg = rand_cfg(r, system)
